@@ -14,6 +14,8 @@ import simimpl
 from common import bitsf, bitsv3, fbits, v3bits, stable_hash, TICK
 from simcheck import SimCheck, parse, afters, completed, first_diff
 
+from gradysim.protocol.position import geo_to_cartesian
+
 TOL = 1e-9
 
 
@@ -45,6 +47,7 @@ def run_with_recorder(case, behaviour, cls):
     itself in _LAST); returns (result, recorder)"""
     old = simimpl.Recorder
     simimpl.Recorder = cls
+    _LAST.pop("rec", None)
     try:
         res = simimpl.run_impl(case, behaviour, draw_seed=case.get("seed", 0))
     finally:
@@ -62,7 +65,8 @@ class CmdPosRecorder(simimpl.Recorder):
     def __init__(self, scn, behaviour=None):
         super().__init__(scn, behaviour)
         self.cmd_pos = []
-        _LAST["rec"] = self
+        self.geo_targets = []
+        _LAST.setdefault("rec", self)     # the scenario's own recorder is made first; a shadow simulation's comes later
 
     def snap(self):
         try:
@@ -73,6 +77,15 @@ class CmdPosRecorder(simimpl.Recorder):
     def perform(self, proto, req):
         if req[0] in ("goto", "gotoGeo", "setSpeed") and self.sim is not None:
             before = self.snap()
+            if req[0] == "gotoGeo":
+                # where the geographic target lies in the scene: the project's public conversion, relative to
+                # the reference the mobility handler was configured with (what that point IS is C20's subject;
+                # that the node then flies to it like to any other target is C11's)
+                try:
+                    self.geo_targets.append([len(self.trace), v3bits(geo_to_cartesian(
+                        bitsv3(self.scn["cfg"]["refGeo"]), bitsv3(req[1:4])))])
+                except Exception:
+                    pass
             try:
                 return super().perform(proto, req)
             finally:
@@ -89,9 +102,14 @@ def walk_motion(case, impl):
     dts = bitsf(cfg["dtS"])
     fails = []
     info = {"partial": [0] * n, "arrive": [0] * n, "rest": [0] * n, "retarget": [0] * n,
-            "speedchange": [0] * n, "ticks": 0, "judged": 0, "exact": 0, "events": 0, "commands": 0}
+            "speedchange": [0] * n, "ticks": 0, "judged": 0, "exact": 0, "events": 0, "commands": 0,
+            "geo": 0, "geoJudged": 0, "revisit": 0, "crossRevisit": 0}
     pos = [bitsv3(p) for p in cfg["initPos"]]
-    tgt = [None] * n            # None: no target; "?": a geographic target (not judged); else a 3-tuple
+    tgt = [None] * n            # None: no target; "?": a geographic target whose place is unknown (not judged); else a 3-tuple
+    geo = {i: bitsv3(b) for i, b in impl.get("geoTargets") or []}
+    is_geo = [False] * n        # the current target was given geographically
+    last_of = [dict() for _ in range(n)]   # statistics only: the last request of each kind, per node
+    seen = [[] for _ in range(n)]          # statistics only: all goto requests so far, per node
     spd = [bitsf(cfg["defaultSpeed"])] * n
     flying = [0] * n            # partial steps made towards the current target
     samples = impl.get("positions") or []
@@ -129,7 +147,9 @@ def walk_motion(case, impl):
             kt = ((ts - 1) // dt) * dt if ts > 0 else 0
             if kt >= dt and kt not in updates_seen and kt not in idle_seen and cfg["hasMob"]:
                 updates_seen.add(kt)
-                add("C11:update-skipped", f"no mobility update was observed at {kt} (update interval {dt}), events now at {ts}")
+                who = [f"node {i} at {pos[i]} with target {tgt[i]}" for i in range(n) if should_move(i)]
+                add("C11:update-skipped", f"no mobility update was observed at {kt} (update interval {dt}), events now at {ts}: "
+                                          f"the update of that instant was skipped or it left in place " + ", ".join(who[:3]))
 
     for idx, op, before, after in impl.get("cmdPos", []):
         info["commands"] += 1
@@ -137,7 +157,7 @@ def walk_motion(case, impl):
             i = next(i for i in range(n) if before[i] != after[i])
             add("C11:moved-by-command", f"the {op} command (trace entry {idx}) itself moved node {i} from "
                                         f"{bitsv3(before[i])} to {bitsv3(after[i])}")
-    for e in impl["trace"]:
+    for ti, e in enumerate(impl["trace"]):
         if e[0] == "cb":
             if e[2] not in ("initialize", "finish"):
                 had_cb = True
@@ -147,14 +167,21 @@ def walk_motion(case, impl):
                 add("C11:command-refused", f"{req[0]} by node {node} raised")
             if not ok or not cfg["hasMob"]:
                 continue
-            if req[0] == "goto":
-                new = bitsv3(req[1:4])
+            if req[0] in ("goto", "gotoGeo"):
+                # a cartesian target is the triple given; a geographic one the converted point recorded at the request
+                new = bitsv3(req[1:4]) if req[0] == "goto" else geo.get(ti, "?")
                 if tgt[node] not in (None, "?") and pos[node] != tgt[node] and flying[node] > 0:
                     info["retarget"][node] += 1
+                if tgt[node] not in (None, "?") and new != tgt[node]:
+                    # a request made before (same kind, same parameters) while the node is now headed elsewhere
+                    info["revisit"] += req in seen[node]
+                    # ... the previous request of its kind, because a request of the other kind came in between
+                    info["crossRevisit"] += last_of[node].get(req[0]) == req
+                last_of[node][req[0]] = req
+                seen[node].append(req)
                 tgt[node] = new
-                flying[node] = 0
-            elif req[0] == "gotoGeo":
-                tgt[node] = "?"
+                is_geo[node] = req[0] == "gotoGeo"
+                info["geo"] += is_geo[node]
                 flying[node] = 0
             elif req[0] == "setSpeed":
                 v = bitsf(req[1])
@@ -194,6 +221,7 @@ def walk_motion(case, impl):
                     if t == "?":
                         continue
                     info["judged"] += 1
+                    info["geoJudged"] += is_geo[i]
                     d = dist3(p, t)
                     mm = spd[i] * dts
                     scale = max(1.0, d, mm, max(abs(c) for c in p + t))
@@ -236,6 +264,30 @@ def walk_motion(case, impl):
     return fails, info
 
 
+def geo_waypoint(r, ref, span=8):
+    """a geographic waypoint (lat, lon, alt) within `span`/65536 degrees (about 1.7 m each) of the reference"""
+    return (ref[0] + r.randint(-span, span) / 65536.0, ref[1] + r.randint(-span, span) / 65536.0,
+            float(r.randint(0, 30)))
+
+
+def waypoint_request(r, ref, p_geo=0.5, lo=-12, hi=12):
+    """one named place of a route as the request that sends a node there: a cartesian goto to a lattice point or a
+    geographic goto — the same place is always requested by the same command with the same parameters"""
+    if r.random() < p_geo:
+        return ["gotoGeo"] + v3bits(geo_waypoint(r, ref))
+    return ["goto"] + v3bits(simgen.lattice(r, lo, hi))
+
+
+class RouteBehaviour(simgen.Behaviour):
+    """simgen.Behaviour whose goto / gotoGeo requests are drawn from the scenario's alphabet of places
+    (profile["places"]: complete requests, cartesian and geographic mixed)"""
+
+    def make(self, r, op, n, kind, key, t, hops):
+        if op in ("goto", "gotoGeo") and self.p.get("places"):
+            return list(r.choice(self.p["places"]))
+        return super().make(r, op, n, kind, key, t, hops)
+
+
 class C11(SimCheck):
     prop = "C11"
     level_text = ("Theorems over the reals for the per-node update (no target: fixed; arrival: the target itself, for every "
@@ -243,12 +295,17 @@ class C11(SimCheck):
                   "trajectory by induction; commands change only target/speed), tied to the code by bit-exact differential "
                   "execution of the same formula at IEEE doubles.")
     rule = ("exact regime: axis-aligned integer geometry with dyadic speed*dt, scripted retarget / speed change mid-flight; "
-            "general regime: 1-5 nodes, random lattice targets, goto / set-speed issued from initialize, timer, packet and "
-            "telemetry handlers at random ticks; observation = every node's position after every executed event, compared bit "
+            "route regime: 1-3 nodes patrolling a closed route of 2-4 named places, each place given either as a cartesian or "
+            "as a geographic goto (always by the same command), legs started on a schedule (mid-flight or after resting); "
+            "general regime: 1-5 nodes, random lattice / geographic targets or a small alphabet of places (cartesian, or "
+            "cartesian and geographic mixed) that are revisited, goto / geographic goto / set-speed issued from initialize, "
+            "timer, packet and telemetry handlers at random ticks; a geographic target is judged as the point the public "
+            "geo_to_cartesian gives for it; observation = every node's position after every executed event, compared bit "
             "for bit; non-trivial = one node's trajectory has >= 3 partial steps, an arrival, >= 2 ticks at rest and a "
             "mid-flight retarget")
     assumptions = ["0 <= speed and 0 < update_rate (with a negative speed the code moves away from the target: not a speed)",
-                   "geographic targets are C20's subject: not generated here",
+                   "where a geographic target lies is C20's subject: C11 takes the point geo_to_cartesian(reference, target) "
+                   "and checks that the node flies to it like to any other target",
                    "times are dyadic (ticks/1024); IEEE rounding of the real-number formula is trusted (T3), the oracle "
                    "allows 1e-9 relative"]
     force_cfg = {"hasMob": True, "hasTimer": True}
@@ -259,8 +316,10 @@ class C11(SimCheck):
                "horizon": 24 * 1024, "budget": 90, "maxReq": 3}
     quick_n = 200
     thorough_n = 6000
-    exact_quick = 120
+    exact_quick = 100
     exact_thorough = 3000
+    route_quick = 40
+    route_thorough = 1200
 
     # -- generators ---------------------------------------------------------------------------
     def exact_case(self, seed):
@@ -323,11 +382,70 @@ class C11(SimCheck):
         scn["label"] = f"exact/{seed}"
         return scn
 
+    def route_case(self, seed):
+        """patrols: every node flies a closed route W0 -> W1 -> ... -> W0 -> ... over 2-4 named places, the next leg
+        requested on a schedule from the telemetry callback (sometimes mid-flight, sometimes after resting on the
+        place); each place is a cartesian or a geographic goto, always the same command with the same parameters"""
+        r = random.Random(stable_hash("C11r", seed))
+        scn, _ = simgen.gen_scenario(seed, dict(self.force_cfg, nNodes=r.choice([1, 2, 2, 3])), dict(self.profile), None)
+        cfg = scn["cfg"]
+        n, dt = cfg["nNodes"], cfg["dt"]
+        dts = dt / TICK
+        ref = bitsv3(cfg["refGeo"])
+        shared = [waypoint_request(r, ref) for _ in range(r.choice([2, 3, 4]))]
+        rows = []
+        last = 4
+        for node in range(n):
+            if node > 0 and r.random() < 0.2:
+                continue                                    # a node without target: must stay put
+            route = shared if r.random() < 0.5 else [waypoint_request(r, ref) for _ in range(r.choice([2, 2, 3, 4]))]
+            route = route[r.randrange(len(route)):] + route
+            speed = r.choice([2.0, 4.0, 8.0, 16.0, 3.3, 10.0])
+            init = [list(route[0])]
+            if r.random() < 0.7:
+                init.insert(r.randrange(2), ["setSpeed", fbits(speed)])
+            else:
+                speed = bitsf(cfg["defaultSpeed"])
+            rows.append({"n": node, "cb": "initialize", "key": "", "t": 0, "reqs": init})
+            k = 0
+            for leg in range(1, r.randint(3, 7)):
+                # a leg of ~20 m takes 20/(speed*dt) updates: leave earlier (retarget mid-flight) or later (rest first)
+                k += max(1, int(round(20.0 / (speed * dts) * r.choice([0.3, 0.6, 1.5, 2.5]))))
+                if k > 50:
+                    break
+                reqs = [list(route[leg % len(route)])]
+                if r.random() < 0.15:
+                    speed = r.choice([2.0, 4.0, 8.0, 16.0])
+                    reqs.insert(r.randrange(2), ["setSpeed", fbits(speed)])
+                rows.append({"n": node, "cb": "telemetry", "key": "", "t": k * dt, "reqs": reqs})
+            last = max(last, k + int(round(45.0 / (speed * dts))) + 2)
+        ticks = min(last, 64)
+        cfg["duration"] = ticks * dt
+        cfg["maxIter"] = None
+        if r.random() < 0.5:
+            scn["drive"] = {"mode": "start"}
+        else:
+            scn["drive"] = {"mode": "steps", "n": ticks * (n + 1) + r.choice([0, 3, 10])}
+        scn["frozen"] = True
+        scn["table"] = rows
+        scn["wantPos"] = True
+        scn["regime"] = "route"
+        scn["label"] = f"route/{seed}"
+        return scn
+
     def generate(self, seed, tier):
         m = self.exact_quick if tier == "quick" else self.exact_thorough
         for i in range(m):
             yield self.exact_case(stable_hash(self.prop, "exact", seed, i))
+        m = self.route_quick if tier == "quick" else self.route_thorough
+        for i in range(m):
+            yield self.route_case(stable_hash(self.prop, "route", seed, i))
         yield from super().generate(seed, tier)
+
+    def behaviour(self, case):
+        if case.get("frozen"):
+            return None
+        return RouteBehaviour(stable_hash("beh", case.get("seed", 0)), case["cfg"], case.get("profile"))
 
     def tweak(self, r, scn):
         cfg = scn["cfg"]
@@ -339,12 +457,26 @@ class C11(SimCheck):
         cfg["defaultRange"] = fbits(1.0e6)
         if scn["drive"]["mode"] == "steps":
             scn["drive"]["n"] = r.choice([3, 30, 120, 400])
-        if r.random() < 0.5:
+        style = r.random()
+        if style < 0.3:
             # a small waypoint alphabet: targets are revisited (goto T, goto U, goto T again), also at
             # the same speed, from positions off the original line
             scn["profile"]["waypoints"] = [list(simgen.lattice(r, -12, 12)) for _ in range(r.choice([2, 3, 3]))]
             scn["profile"]["horizon"] = 16 * 1024
             scn["profile"]["pTelemetry"] = 0.3
+        elif style < 0.6:
+            # a small alphabet of places, some cartesian and some geographic: both kinds of goto are mixed on one
+            # node and the same place comes back by the very same request after the node was sent elsewhere
+            ref = bitsv3(cfg["refGeo"])
+            k = r.choice([2, 3, 3, 4])
+            places = [waypoint_request(r, ref, p_geo=(0.0 if j == 0 else 1.0 if j == 1 else 0.5)) for j in range(k)]
+            scn["profile"]["places"] = places
+            scn["profile"]["w"] = dict(scn["profile"]["w"], goto=3, gotoGeo=3)
+            scn["profile"]["horizon"] = 16 * 1024
+            scn["profile"]["pTelemetry"] = 0.3
+        elif style < 0.8:
+            # free geographic targets next to free cartesian ones
+            scn["profile"]["w"] = dict(scn["profile"]["w"], gotoGeo=2)
         return scn
 
     # -- observation / correspondence ---------------------------------------------------------
@@ -371,6 +503,7 @@ class C11(SimCheck):
     def run_impl(self, case):
         res, rec = run_with_recorder(case, self.behaviour(case), CmdPosRecorder)
         res["cmdPos"] = rec.cmd_pos if rec is not None else []
+        res["geoTargets"] = rec.geo_targets if rec is not None else []
         return res
 
     def oracle(self, case, impl):
@@ -397,6 +530,10 @@ class C11(SimCheck):
         acc["commands_observed_before_after"] = acc.get("commands_observed_before_after", 0) + info["commands"]
         acc["node_updates_judged"] = acc.get("node_updates_judged", 0) + info["judged"]
         acc["exact_lattice_arrivals"] = acc.get("exact_lattice_arrivals", 0) + info["exact"]
+        for k_, name in (("geo", "geographic_gotos"), ("geoJudged", "node_updates_judged_towards_geographic_target"),
+                         ("revisit", "same_request_repeated_while_headed_elsewhere"),
+                         ("crossRevisit", "same_request_repeated_after_goto_of_other_kind")):
+            acc[name] = acc.get(name, 0) + info[k_]
         acc["position_samples_compared_bitwise"] = acc.get("position_samples_compared_bitwise", 0) + \
             len(impl.get("positions") or []) * case["cfg"]["nNodes"]
 
@@ -416,7 +553,7 @@ class SendPosRecorder(simimpl.Recorder):
     def __init__(self, scn, behaviour=None):
         super().__init__(scn, behaviour)
         self.send_pos = []
-        _LAST["rec"] = self
+        _LAST.setdefault("rec", self)     # the scenario's own recorder is made first; a shadow simulation's comes later
 
     def perform(self, proto, req):
         if req[0] in ("send", "broadcast") and self.sim is not None:
@@ -898,6 +1035,35 @@ def hot_cases():
                   _row(0, "telemetry", "", 2 * 512, [["setSpeed", fbits(0.0)]]),
                   _row(0, "telemetry", "", 4 * 512, [["setSpeed", fbits(7.1)]])],
         "drive": {"mode": "steps", "n": 40}, "seed": 2, "frozen": True, "wantPos": True, "regime": "general", "profile": {}}
+    # C11: places given in both ways on one node: out to A (cartesian), detour to B (geographic, mid-flight), back to A
+    # by the very same request, rest there; node 1 the other way round (geographic, cartesian, the same geographic again)
+    geo_b = ["gotoGeo"] + v3bits([20 / 65536.0, -9 / 65536.0, 25.0])
+    geo_g = ["gotoGeo"] + v3bits([-6 / 65536.0, 14 / 65536.0, 3.0])
+    out[("C11", "both_goto_kinds_return")] = {
+        "cfg": _cfg(2, [(0, 0, 10), (5, 5, 5)], duration=40 * 1024, defaultSpeed=fbits(4.0)),
+        "table": [_row(0, "initialize", "", 0, [_goto((30, 0, 10))]),
+                  _row(0, "telemetry", "", 3 * 1024, [list(geo_b)]),
+                  _row(0, "telemetry", "", 8 * 1024, [_goto((30, 0, 10))]),
+                  _row(1, "initialize", "", 0, [list(geo_g)]),
+                  _row(1, "telemetry", "", 12 * 1024, [_goto((5, 5, 5))]),
+                  _row(1, "telemetry", "", 14 * 1024, [list(geo_g)])],
+        "drive": {"mode": "start"}, "seed": 6, "frozen": True, "wantPos": True, "regime": "route", "profile": {}}
+    # C08: ranges lowered and raised again between transmissions, on exact lattice distances (5, 20, 50): node 0 first
+    # reaches only its neighbour (exactly on the boundary), then widens to exactly the farthest node and broadcasts, narrows
+    # (the copy for node 3 is out of range: not C08's business) and widens again; node 3 starts on the medium's range, goes
+    # silent with range 0 and comes back
+    out[("C08", "ranges_lowered_and_raised_between_sends")] = {
+        "cfg": _cfg(4, [(0, 0, 0), (3, 4, 0), (0, 0, 50), (20, 0, 0)], hasMob=False, handlers=["timer", "communication"],
+                    defaultRange=fbits(30.0), delay=1024, duration=None),
+        "table": [_row(0, "initialize", "", 0, [["setRange", fbits(5.0)], ["send", "a", 1], ["setTimer", "a", 2048]]),
+                  _row(0, "timer", "a", 2048, [["setRange", fbits(50.0)], ["broadcast", "b"], ["setRange", fbits(10.0)],
+                                               ["send", "c", 3], ["send", "c1", 1], ["setTimer", "b", 4096]]),
+                  _row(0, "timer", "b", 4096, [["setRange", fbits(1.0e6)], ["send", "d", 2]]),
+                  _row(3, "initialize", "", 0, [["send", "e", 0], ["setRange", fbits(0.0)], ["send", "f", 0],
+                                                 ["setTimer", "c", 3072]]),
+                  _row(3, "timer", "c", 3072, [["setRange", fbits(25.0)], ["broadcast", "g"]]),
+                  _row(2, "packet", "b", 3072, [["setRange", fbits(60.0)], ["send", "h", 0]])],
+        "drive": {"mode": "start"}, "seed": 7, "frozen": True, "rangeChanges": True, "profile": {}}
     # C09: node 1 exactly on node 0's boundary (2,3,6 / 7); node 1 shrinks its own range to 6: 0->1 delivered,
     # 1->0 not; a negative range is refused; node 1 flies away during the 3 s delay and still receives
     out[("C09", "boundary_asymmetric_moving")] = {
